@@ -64,3 +64,81 @@ Print Assumptions C08_many_frames.
 Print Assumptions C08_nothing_for_queue.
 Print Assumptions C08_fifo.
 Print Assumptions C08_eventually.
+
+(** * On the source (pl14): the receive thread, the stream path and the fan-out as INTERPRETED code
+    (comm.py [_recv_thread], [stream_data]; nxscope.py [_stream_thread]), the queues and the link being the
+    harness stubs.  Proofs: proofs/Src_recvpath_*.v. *)
+From Coq Require String.
+From NX Require PyLite Src_all Src_reasm_proofs Src_recvpath_proofs Src_recvpath_session Src_recvpath_stream
+  Src_recvpath_deliver Src_recvpath_deliver_model Src_stream_proofs Src_stream_model Stream Reasm Bytes.
+Section OnSource.
+Import String PyLite Src_all.
+Import Src_recvpath_proofs Src_recvpath_session Src_recvpath_stream Src_recvpath_deliver Src_recvpath_deliver_model.
+Import Src_stream_proofs Src_stream_model.
+Open Scope string_scope.
+Open Scope list_scope.
+
+(** first hop, one call of the receive thread body: one reassembly step, then the routing rule *)
+Theorem C08_recv_thread_src : forall fuel dv q qs prev l,
+  (6 + Src_reasm_proofs.measure prev l <= fuel)%nat ->
+  call_method program fuel (rch dv q qs prev l) "_recv_thread" [] = recv_meth dv q qs (Reasm.read_frame prev l).
+Proof. exact recv_thread_spec. Qed.
+
+(** first hop, to exhaustion: the stream queue gets exactly the stream frames of ONE scan of the bytes, in
+    order, the other queue the rest (minus ACKs before the handshake), for every chunking and every number
+    of further calls *)
+Theorem C08_recv_session_src : forall F k dv q qs prev chunks,
+  Bytes.wf_bytes prev -> Reasm_proofs.wf_link chunks ->
+  (6 + Src_reasm_proofs.measure prev chunks <= F)%nat -> (Src_reasm_proofs.measure prev chunks <= k)%nat ->
+  exists rest,
+    iter_thread F k (rch dv q qs prev chunks) =
+    PyLite.Ok (rch dv (q ++ filter (to_q (is_none dv)) (fst (Reasm.scan (prev ++ List.concat chunks))))
+                      (qs ++ filter to_stream (fst (Reasm.scan (prev ++ List.concat chunks)))) rest []).
+Proof. exact recv_thread_session. Qed.
+
+(** second hop: the next stream frame, decoded as the model decoder does *)
+Theorem C08_stream_data_src : forall n dd cfgs chans data r,
+  Forall cfg_ok cfgs ->
+  sdata_rel (sch (dev_obj dd cfgs) chans r)
+    (Stream.stream_decode (lay_of cfgs) [] data)
+    (call_method program (4 + List.length data + n) (sch (dev_obj dd cfgs) chans (SFrame 1 data :: r)) "stream_data" []).
+Proof. exact stream_data_model. Qed.
+
+(** the fan-out, one frame: the per-frame delivery function *)
+Theorem C08_stream_thread_src : forall dd_rest cfgs en en_new div_now div_new en_sync div_sync,
+  List.length en = List.length cfgs -> Forall cfg_ok cfgs ->
+  forall n data r subs ovf fl ss,
+  indexed cfgs -> List.length subs = List.length cfgs ->
+  Stream.stream_decode (lay_of cfgs) [] data = Frame.Ok (Some (fl, ss)) -> existsb sample_lossy ss = false ->
+  call_method program (6 + List.length data + n)
+    (nxh (sch (dev_obj (ddata_pv (Z.of_nat (List.length cfgs)) dd_rest) cfgs)
+              (chans_pv en en_new div_now div_new en_sync div_sync) (SFrame 1 data :: r)) subs ovf)
+    "_stream_thread" [] =
+  PyLite.Ok (PNone,
+             nxh (sch (dev_obj (ddata_pv (Z.of_nat (List.length cfgs)) dd_rest) cfgs)
+                      (chans_pv en en_new div_now div_new en_sync div_sync) r)
+                 (Src_recvpath_deliver.deliver en ss subs) (if (Z.land fl 1 =? 0)%Z then ovf else (ovf + 1)%Z)).
+Proof. exact stream_thread_frame. Qed.
+
+(** what each queue of channel c gets from one frame: one item, the samples of c in frame order, iff there
+    are any and c is enabled in the client's view; otherwise it is untouched *)
+Theorem C08_queue_src : forall en ss subs c,
+  nth c (Src_recvpath_deliver.deliver en ss subs) [] =
+  map (fun q => (fst q, snd q ++ app_items en ss c)) (nth c subs []).
+Proof. exact deliver_row_app. Qed.
+
+(** the model of this file, run on the abstraction of the same frame, appends the image of the same selection *)
+Theorem C08_model_src : forall (val : Stream.sample -> Z) st fl ss q c,
+  Forall (fun s => (0 <= Stream.s_chan s)%Z) ss ->
+  (c < List.length (enabled st))%nat -> mult (subs st) c q = 1%nat -> (forall c', c' <> c -> mult (subs st) c' q = 0%nat) ->
+  qget (queues (Deliver.deliver st (abs_frame val fl ss))) q =
+  qget (queues st) q ++ match gsel (enabled st) ss c with [] => [] | l => [map val l] end.
+Proof. exact model_appends. Qed.
+End OnSource.
+
+Print Assumptions C08_recv_thread_src.
+Print Assumptions C08_recv_session_src.
+Print Assumptions C08_stream_data_src.
+Print Assumptions C08_stream_thread_src.
+Print Assumptions C08_queue_src.
+Print Assumptions C08_model_src.
